@@ -25,7 +25,14 @@ Rewrites the translation follows (so that a harmless clean-up of the source does
     the translated arguments (kind "inl": `return e` gives the value, `raise` gives Err, the result
     type is inferred; abstract methods and recursion are not inlined);
   * `getattr(self, "a", d)` for `self.a` (when `self.a` is configured, else the default);
-  * `yield <call that may raise>`; temporaries (`m = np.max(c)`), conditional expressions.
+  * `yield <call that may raise>`; temporaries (`m = np.max(c)`), conditional expressions;
+  * naming of locals: methods and attributes of typed values are looked up by the TYPE of the
+    receiver (`calls["<L>.to_numpy"]`, cfg["attrs"][("Y", "index")]), not by the local's name;
+  * boolean temporaries that hold a test (`has_iw = hasattr(self, "iw") and self.iw is not None`):
+    when the right-hand side is not an expression of the subset (`is None`), the name stands for
+    the test itself (single assignment of everything it mentions is checked) and a later
+    `if has_iw:` / `a if has_iw else b` is translated as the test, with its refinements;
+  * `x is None` on a value that cannot be None (Z, L, B) is statically false; `a or b` as a test.
 """
 import os
 import ast
@@ -70,6 +77,22 @@ def _is_string_expr(e):
     return False
 BIN = {ast.Add: "+", ast.Sub: "-", ast.Mult: "*"}
 CMP = {ast.Gt: ">?", ast.GtE: ">=?", ast.Lt: "<?", ast.LtE: "<=?", ast.Eq: "=?"}
+
+
+def _is_plain_data(e):
+    """Names, constants, tuples of them and conditional expressions choosing between such - no
+    calls, no arithmetic: evaluating it has no effect and cannot raise."""
+    if isinstance(e, (ast.Name, ast.Constant)):
+        return True
+    if isinstance(e, ast.Tuple):
+        return all(_is_plain_data(x) for x in e.elts)
+    if isinstance(e, ast.IfExp):
+        t = e.test
+        ok = isinstance(t, ast.Name) or (
+            isinstance(t, ast.Compare) and len(t.ops) == 1 and isinstance(t.ops[0], (ast.Is, ast.IsNot))
+            and isinstance(t.left, ast.Name) and isinstance(t.comparators[0], ast.Constant))
+        return ok and _is_plain_data(e.body) and _is_plain_data(e.orelse)
+    return False
 
 
 def is_rtype(ty):
@@ -232,6 +255,8 @@ class Tr:
             if e.id in env:
                 if env[e.id][1] == "UNBOUND":
                     raise Unsupported("argument %s of a helper is outside the subset" % e.id)
+                if env[e.id][1] == "TESTAST":
+                    return self.expr(env[e.id][0], env)
                 return env[e.id]
             raise Unsupported("unbound name " + e.id)
         if isinstance(e, ast.Attribute):
@@ -241,6 +266,10 @@ class Tr:
             if e.attr == "shape" and isinstance(e.value, ast.Name) and e.value.id in env \
                     and env[e.value.id][1] == "Y":
                 return env[e.value.id][0], "YSHAPE"
+            if self.cfg.get("attrs") and isinstance(e.value, ast.Name) and e.value.id in env:
+                key = (env[e.value.id][1], e.attr)
+                if key in self.cfg["attrs"]:
+                    return self.cfg["attrs"][key]
             raise Unsupported("attribute " + u)
         if isinstance(e, ast.UnaryOp) and isinstance(e.op, ast.Not):
             t, ty = self.expr(e.operand, env)
@@ -327,6 +356,12 @@ class Tr:
             callee = ast.unparse(e.func)
             if callee in self.calls:
                 return self.calls[callee](self, e, env)
+            if isinstance(e.func, ast.Attribute) and isinstance(e.func.value, ast.Name) \
+                    and e.func.value.id in env and env[e.func.value.id][1] not in ("UNBOUND", "TESTAST"):
+                rt, rty = env[e.func.value.id]
+                key = "<%s>.%s" % (rty, e.func.attr)
+                if key in self.calls:
+                    return self.calls[key](self, e, env, rt)
             if callee == "getattr" and len(e.args) == 3 and not e.keywords \
                     and ast.unparse(e.args[0]) == "self" and isinstance(e.args[1], ast.Constant) \
                     and isinstance(e.args[1].value, str):
@@ -370,6 +405,26 @@ class Tr:
 
     def cond(self, test, env, then_k, else_k):
         """Translate a conditional; `x is None` / `x is not None` on option variables refine x."""
+        if isinstance(test, ast.Name) and test.id in env and env[test.id][1] == "TESTAST":
+            return self.cond(env[test.id][0], env, then_k, else_k)
+        if isinstance(test, ast.UnaryOp) and isinstance(test.op, ast.Not) \
+                and isinstance(test.operand, ast.Name) and test.operand.id in env \
+                and env[test.operand.id][1] == "TESTAST":
+            return self.cond(env[test.operand.id][0], env, else_k, then_k)
+        if isinstance(test, ast.BoolOp) and isinstance(test.op, ast.Or) and self._has_none_test(test, env):
+            # a or b or ...: short-circuit, continuation duplicated (so that `is None` tests refine)
+            rest = test.values[1] if len(test.values) == 2 else ast.BoolOp(op=ast.Or(),
+                                                                           values=test.values[1:])
+            return self.cond(test.values[0], env, then_k,
+                             lambda en: self.cond(rest, en, then_k, else_k))
+        if isinstance(test, ast.BoolOp) and isinstance(test.op, ast.And) and len(test.values) > 2 \
+                and self._has_none_test(test, env):
+            rest = ast.BoolOp(op=ast.And(), values=test.values[1:])
+            return self.cond(test.values[0], env,
+                             lambda en: self.cond(rest, en, then_k, else_k), else_k)
+        if isinstance(test, ast.UnaryOp) and isinstance(test.op, ast.Not) \
+                and self._has_none_test(test.operand, env):
+            return self.cond(test.operand, env, else_k, then_k)
         if isinstance(test, ast.Compare) and len(test.ops) == 1 \
                 and isinstance(test.ops[0], (ast.Is, ast.IsNot)) \
                 and isinstance(test.comparators[0], ast.Constant) \
@@ -380,6 +435,8 @@ class Tr:
                 return (then_k if neg else else_k)(env)
             if ty == "ABSENT":  # an optional argument the translation is specialised to None
                 return (else_k if neg else then_k)(env)
+            if ty in ("Z", "L", "B", "PRESENT"):   # a number / array / flag is never None
+                return (then_k if neg else else_k)(env)
             if ty == "V":
                 c = "(negb (pv_is_none %s))" % t if neg else "(pv_is_none %s)" % t
                 a, ta = then_k(env)
@@ -406,6 +463,27 @@ class Tr:
         b, tb = else_k(env)
         a, b, ta = self.unify(a, ta, b, tb)
         return "(if %s then %s else %s)" % (c, a, b), ta
+
+    def _has_none_test(self, t, env):
+        """Does the test contain `x is (not) None` (directly or through a test temporary)?"""
+        for n in ast.walk(t):
+            if isinstance(n, ast.Compare) and any(isinstance(o, (ast.Is, ast.IsNot)) for o in n.ops):
+                return True
+            if isinstance(n, ast.Name) and n.id in env and env[n.id][1] == "TESTAST":
+                return True
+        return False
+
+    def _single_assignment(self, node):
+        """Every local the expression mentions is assigned at most once in the enclosing function
+        (so the expression means the same wherever it is evaluated later)."""
+        fn = self.stack[-1] if self.stack else self.fn
+        counts = {}
+        for x in ast.walk(fn):
+            if isinstance(x, ast.Name) and isinstance(x.ctx, ast.Store):
+                counts[x.id] = counts.get(x.id, 0) + 1
+            elif isinstance(x, ast.AugAssign) and isinstance(x.target, ast.Name):
+                counts[x.target.id] = counts.get(x.target.id, 0) + 1
+        return all(counts.get(x.id, 0) <= 1 for x in ast.walk(node) if isinstance(x, ast.Name))
 
     # ---- statements, continuation style; result type depends on kind
     def ret_type(self):
@@ -478,6 +556,25 @@ class Tr:
                     raise Unsupported("tuple assignment with dependent right-hand side")
             seq = [ast.Assign(targets=[t], value=v) for t, v in zip(s.targets[0].elts, s.value.elts)]
             return self.block(seq + rest, env)
+        if isinstance(s, ast.Assign) and len(s.targets) == 1 and isinstance(s.targets[0], ast.Name) \
+                and isinstance(s.value, (ast.BoolOp, ast.Compare, ast.UnaryOp)) \
+                and self._has_none_test(s.value, env):
+            # a boolean temporary holding a test with `is None` in it: the name stands for the test
+            if not self._single_assignment(s.value) or not self._single_assignment(s.targets[0]):
+                raise Unsupported("test temporary %s is not single-assignment" % s.targets[0].id)
+            env2 = dict(env)
+            env2[s.targets[0].id] = (s.value, "TESTAST")
+            return self.block(rest, env2)
+        if isinstance(s, ast.Assign) and len(s.targets) == 1 and isinstance(s.targets[0], ast.Name) \
+                and _is_plain_data(s.value):
+            # a tuple / choice of arguments put aside (`series = (y,) if X is None else (y, X)`):
+            # nothing to compute; the name is only usable where a handler asks for its definition
+            try:
+                self.expr(s.value, env)
+            except Unsupported:
+                env2 = dict(env)
+                env2[s.targets[0].id] = (s.value, "UNBOUND")
+                return self.block(rest, env2)
         if isinstance(s, ast.Assign) and len(s.targets) == 1 and isinstance(s.targets[0], ast.Name):
             v = s.targets[0].id
             t, ty = self.expr(s.value, env)
